@@ -7,42 +7,42 @@ HOOK_COMMITS = ["82d54e0", "06e15f0", "cd0ed04", "7dd122d"]
 P = {
  "C15": ("cachemodel", "exploration",
          "reference-model monitor over bounded-exhaustive + seeded random op sequences (testing/synctest quiescence for async callbacks)",
-         "Every canonical sequence of Set/Get/Delete/clock-advance/Close up to the tier's length over 3 keys, capacities 1-3, four policies, expiry on/off, sync/async callbacks is executed on the real cache and compared after every op with a reference model (exact for LRU/SLRU, exact up to ties for LFU, generic invariants for TinyLFU), plus seeded random sequences at capacities on both sides of the 80% and 1% thresholds. Held on what was executed; nothing beyond the bound is claimed.",
+         "Every canonical sequence of Set/Get/Delete/clock-advance/Close up to the tier's length over 3 keys, capacities 1-3, four policies, expiry on/off, sync/async callbacks is executed on the real cache and compared after every op with a reference model (exact for LRU/SLRU, exact up to ties for LFU, generic invariants for TinyLFU), plus seeded random sequences at capacities on both sides of the 80% and 1% thresholds, plus real-goroutine rounds (8 workers; every key set once with a unique value, then read and deleted by anybody) with a conservation oracle: each entry is removed by exactly one successful Delete or reported by exactly one callback carrying its own value. Held on what was executed; nothing beyond the bound is claimed.",
          "Trusted: the reference models (written from the policy definitions), testing/synctest quiescence, Go runtime. Panics are caught per sequence; a 120 s no-progress watchdog reports a hang.",
          "3/C15"),
  "C01": ("hist", "exploration",
          "round-trip oracle over seeded random histories in a testing/synctest virtual-time bubble (monitored metastore/KMS/AEAD/secret factory)",
-         "Seeded random histories interleave encrypt/store, decrypt/load through the same, another and a brand-new factory, session and factory churn with random cache policies (all five key-cache policies, capacities 1..1000, shared IK cache, session cache, no cache, both secure-memory implementations), clock advances across precision/revoke/lifetime boundaries and out-of-band revocations; every decrypt is compared with the recorded payload, caller buffers are compared before/after, and a final sweep decrypts every record through a fresh factory; metastore reads, KMS calls and secure-memory allocations fail transiently and external calls take virtual time; two histories in five run end to end over a DynamoDB plug-in (v1/v2) on the semantic fake. Real-goroutine rounds let 6 cold factories encrypt for one new partition at once over each back end with their key inserts held at a barrier, and a cold factory must decrypt every record. Held on the histories executed (counts in the evidence).",
+         "Seeded random histories interleave encrypt/store, decrypt/load through the same, another and a brand-new factory, session and factory churn with random cache policies (all five key-cache policies, capacities 1..1000, shared IK cache, session cache, no cache, both secure-memory implementations), clock advances across precision/revoke/lifetime boundaries and out-of-band revocations; every decrypt is compared with the recorded payload, caller buffers are compared before/after, and a final sweep decrypts every record through a fresh factory; metastore reads, KMS calls and secure-memory allocations fail transiently and external calls take virtual time; half of the histories run end to end over a real metastore plug-in (DynamoDB v1/v2 on the semantic fake, SQL on the mini SQL engine). Real-goroutine rounds let 6 cold factories encrypt for one new partition at once over each back end with their key inserts held at a barrier, and a cold factory must decrypt every record. Held on the histories executed (counts in the evidence).",
          "Trusted: testing/synctest virtual clock, in-memory metastore / DynamoDB fake and StaticKMS as stand-ins for real back ends, Go's AES-GCM.",
          "3/C01"),
  "C03": ("hist", "exploration",
          "online trace checker over AEAD/KMS/metastore/secret-factory/log monitor events (key-role provenance typing, duplicate-free nonce and (key,nonce) sets, artefact byte scanning)",
-         "Every AEAD.Encrypt the SDK issues during seeded histories (debug logging on) is typed against the hierarchy payload<fresh DRK<partition IK<service SK<KMS using roles derived from provenance; nonce and (key,nonce) sets must stay duplicate-free; each data key must be a CreateRandom secret of the same call used exactly once; every record, stored row, KMS output and log line is scanned for known plaintext keys/payloads in raw, base64 (std/url), hex, decimal-list and Go-syntax renderings. Transient read/KMS/allocator faults run inside the histories, and a scripted matrix fails the k-th allocation or KMS call of the first operation of a process that loads persisted keys and then checks the records it goes on to write.",
+         "Every AEAD.Encrypt the SDK issues during seeded histories (debug logging on) is typed against the hierarchy payload<fresh DRK<partition IK<service SK<KMS using roles derived from provenance; nonce and (key,nonce) sets must stay duplicate-free; each data key must be a CreateRandom secret of the same call used exactly once; every record, stored row, KMS output and log line is scanned for known plaintext keys/payloads in raw, base64 (std/url), hex, decimal-list and Go-syntax renderings. Transient read/KMS/allocator faults run inside the histories, and a scripted matrix fails the k-th allocation or KMS call of the first operation of a process that loads persisted keys and then checks the records it goes on to write. The test binary is re-executed as several consecutive process lives over the same persisted keys: the (key, nonce) pairs of all lives must be pairwise distinct.",
          "Trusted: monitors see everything because the SDK reaches AEAD/KMS/metastore/secret factory only through these interfaces; a 96-bit nonce repeat is treated as a violation.",
          "3/C03"),
  "C04": ("hist", "exploration",
          "per-record oracle in virtual time (testing/synctest) over seeded histories plus a deterministic boundary matrix",
-         "For every record produced in seeded histories and in a deterministic matrix (6 cache configurations x 5 SK/IK age offsets x warm/cold sessions, encrypts placed +-1ns/+-1s around every IK/SK expiry boundary and SK expiry + one interval) the oracle recomputes from the record, raw rows, the insert log and the virtual clock: IK age <= lifetime; no IK row inserted under an expired SK; no record under an IK whose SK expired more than one revoke-check interval ago. Matrix variants place a transient read or KMS fault on every encrypt after the SK expired (the operation may fail but must not fall back to the stale key), and a gated schedule holds one process in front of its system-key insert while another completes a rotation (the loser must adopt the new key).",
+         "For every record produced in seeded histories and in a deterministic matrix (6 cache configurations x 5 SK/IK age offsets x warm/cold sessions, encrypts placed +-1ns/+-1s around every IK/SK expiry boundary and SK expiry + one interval) the oracle recomputes from the record, raw rows, the insert log and the virtual clock: IK age <= lifetime; no IK row inserted under an expired SK; no record under an IK whose SK expired more than one revoke-check interval ago. Matrix variants place a transient read or KMS fault on every encrypt after the SK expired (the operation may fail but must not fall back to the stale key), and a gated schedule holds one process in front of its system-key insert while another completes a rotation (the loser must adopt the new key); the matrix is repeated with a zero revoke-check interval.",
          "Trusted: testing/synctest clock; policies satisfy ExpireKeyAfter >= 2*CreateDatePrecision; metastore accepts writes.",
          "3/C04"),
  "C05": ("hist", "exploration",
          "per-record oracle in virtual time over seeded histories with out-of-band revocations plus a deterministic matrix; known-finding filter by signature",
-         "Rows are flagged revoked directly in the raw store under live, long-lived sessions; for every later record the oracle decides from the record, raw rows, flip log and virtual clock whether a key revoked more than 1 (IK) / 2 (parent SK) revoke-check intervals ago is still named although a later stamp was creatable; records under revoked keys must still decrypt. Matrix: 6 configurations x {latest/older IK/SK} x 5 flip offsets x other-process-rotated, then an encrypt every R/4 for 4R; repeated with a zero revoke-check interval and, end to end, over both DynamoDB plug-ins on the semantic fake (the revocation is an out-of-band update of the item).",
+         "Rows are flagged revoked directly in the raw store under live, long-lived sessions; for every later record the oracle decides from the record, raw rows, flip log and virtual clock whether a key revoked more than 1 (IK) / 2 (parent SK) revoke-check intervals ago is still named although a later stamp was creatable; records under revoked keys must still decrypt. Matrix: 6 configurations x {latest/older IK/SK} x 5 flip offsets x other-process-rotated, then an encrypt every R/4 for 4R; repeated with a zero revoke-check interval and, end to end, over the DynamoDB and SQL plug-ins on their fakes (the revocation is an out-of-band update of the item / row).",
          "Trusted: testing/synctest clock. Known finding F11 (decrypt-path seeding of the 'latest' alias) is listed in known_findings.json and reproduced deterministically on every run.",
          "3/C05"),
  "C02": ("faults", "fault_enumeration",
          "fault enumeration (every call index x every fault kind, then every second fault) over monitored metastore/KMS/AEAD with a raw-store audit and a crash-model decrypt",
-         "For 10 key states x 3 cache configurations a clean run records the external-call trace of the encrypt under test; every call index then gets every fault kind valid for it (error, false-without-write, write-then-error, write-then-false, one-precision-unit latency) and, depth-first, every second fault at each later call of the faulted run (sampled in quick, complete in thorough). After each execution the raw store is audited for the IK and SK rows named by the returned record, a brand-new cache-less factory (crash) must decrypt it, a failed op must return (nil, err), and after faults stop the next encrypt and earlier records must work on the same session. The enumeration is repeated (single faults, sampled pairs) with region-suffixed key ids and over both DynamoDB plug-ins on the semantic fake.",
+         "For 10 key states x 3 cache configurations a clean run records the external-call trace of the encrypt under test; every call index then gets every fault kind valid for it (error, false-without-write, write-then-error, write-then-false, one-precision-unit latency) and, depth-first, every second fault at each later call of the faulted run (sampled in quick, complete in thorough). After each execution the raw store is audited for the IK and SK rows named by the returned record, a brand-new cache-less factory (crash) must decrypt it, a failed op must return (nil, err), and after faults stop the next encrypt and earlier records must work on the same session. Encrypt and decrypt operations are enumerated. The enumeration is repeated (single faults, sampled pairs) with region-suffixed key ids and over the DynamoDB and SQL plug-ins on their fakes; real-goroutine rounds let six cold processes insert the same new keys at once over every back end.",
          "Trusted: testing/synctest clock; faults fail without partial effect except the explicit write-then-error kinds; partial writes inside a real database are out of reach.",
          "3/C02"),
  "C09": ("faults", "fault_enumeration",
          "leak ledger (tracking SecretFactory) over fault enumeration incl. allocator and AEAD faults, duplicate-key schedules, with call-site attribution through a tagged hook",
-         "Every secret the SDK allocates goes through a ledger wrapped around the real memguard factory. Over the C02 cells plus decrypt ops and a session-cache configuration, every single fault position in metastore/KMS/AEAD/allocator (pairs sampled in quick, all in thorough) and over 2-process duplicate-key schedules: the data key must be closed when the call returns, with caching disabled every secret of the call must be closed at return, and after session+factory Close (asynchronous teardown quiesced with synctest.Wait) every secret must have been closed and never touched afterwards.",
+         "Every secret the SDK allocates goes through a ledger wrapped around the real memguard factory. Over the C02 cells plus decrypt ops and a session-cache configuration, every single fault position in metastore/KMS/AEAD/allocator/secret access (access refused, or release failing after the callback ran; pairs sampled in quick, all in thorough), over 2-process duplicate-key schedules and over the gRPC sidecar's stream handler (streams ending normally or aborted): the data key must be closed when the call returns, with caching disabled every secret of the call must be closed at return, and after session+factory Close (asynchronous teardown quiesced with synctest.Wait) every secret must have been closed and never touched afterwards.",
          "Known finding F7b (reference on the re-resolved parent SK never released) is attributed through the ikfromekr.reresolved_sk hook and listed in known_findings.json; any other leak fails the check.",
          "3/C09"),
  "C10": ("faults", "fault_enumeration",
          "retained-buffer scan: monitors keep the very slices that held key plaintext and read them at return, over fault enumeration and over fake regional AWS KMS clients",
-         "The AEAD, KMS and SecretFactory monitors retain every slice that carried key plaintext (argument of SecretFactory.New, AEAD.Decrypt outputs other than the caller's payload, KMS.DecryptKey outputs, GenerateDataKey/Decrypt Plaintext and Encrypt request buffers of the fake AWS clients, also when the AEAD fails after the data key was handed out) and check they are all-zero when the public call returns, for every single fault position (pairs sampled/complete) in metastore/KMS/AEAD/allocator over encrypt and decrypt ops, and for every wrap/unwrap failure combination of both AWS plug-ins up to 2 (quick) / 3 (thorough) regions.",
+         "The AEAD, KMS and SecretFactory monitors retain every slice that carried key plaintext (argument of SecretFactory.New, AEAD.Decrypt outputs other than the caller's payload, KMS.DecryptKey outputs, GenerateDataKey/Decrypt Plaintext and Encrypt request buffers of the fake AWS clients, also when the AEAD fails after the data key was handed out) and check they are all-zero when the public call returns, for every single fault position (pairs sampled/complete) in metastore/KMS/AEAD/allocator/secret access over encrypt and decrypt ops, and for every wrap/unwrap failure combination of both AWS plug-ins up to 2 (quick) / 3 (thorough) regions.",
          "Holding the reference keeps the memory from being recycled, so reading it after the call is sound. Only buffers that cross a monitored interface are visible.",
          "3/C10"),
  "C13": ("mstore", "exploration",
@@ -52,7 +52,7 @@ P = {
          "3/C13"),
  "C14": ("faults", "exploration",
          "controlled scheduler: every interleaving of metastore calls of 2-3 processes enumerated depth-first with replay (gates in the metastore monitor, synctest.Wait as quiescence)",
-         "Each process is a goroutine with its own factory over one gated metastore in one virtual-time bubble; the controller releases exactly one parked metastore call per step and enumerates all schedules depth-first (quick truncates per cell; thorough completes the 2-process cells) from cold / expired / revoked / stale-cache starting states. After each schedule: no encrypt failed, every record's IK and SK rows exist, every process and a fresh factory decrypt every record, no stored row changed, and every generated key whose insert was refused (identified through the AEAD/KMS monitors) has been released. The racing-creator cells are repeated end to end over both DynamoDB plug-ins on the semantic fake.",
+         "Each process is a goroutine with its own factory over one gated metastore in one virtual-time bubble; the controller releases exactly one parked metastore call per step and enumerates all schedules depth-first (quick truncates per cell; thorough completes the 2-process cells) from cold / expired / revoked / stale-cache starting states. After each schedule: no encrypt failed, every record's IK and SK rows exist, every process and a fresh factory decrypt every record, no stored row changed, and every generated key whose insert was refused (identified through the AEAD/KMS monitors) has been released. The racing-creator cells are repeated end to end over the DynamoDB and SQL plug-ins; real-goroutine rounds over every back end let six cold processes' key inserts overlap inside the metastore implementation itself.",
          "Processes = separate factories sharing store+KMS; sessions of one factory share mutexes and are covered by C08's stress part instead.",
          "3/C14"),
  "C17": ("awskms", "fault_enumeration",
@@ -67,17 +67,17 @@ P = {
          "3/C20"),
  "C06": ("inputs", "exploration",
          "adversarial id-pair generation from the key-id naming scheme executed through the real decrypt path; err != nil oracle; known-finding filter by signature",
-         "Pairs of distinct partition ids derived from the naming scheme (P vs P_service_product[_region], prefixes, suffixes, case/unicode variants and simple-fold twins, ids embedding _IK_/_SK_, 255-byte ids, random) for four service/product shapes are executed in both directions, cold and warm, with per-session, shared-IK and session caches, over a plain metastore, a suffix-advertising wrapper and the real DynamoDB v1/v2 metastores with region suffix on the fake: a session for B must return an error for A's record each of three times in a row (once more after one of its own records); empty ids must be refused.",
+         "Pairs of distinct partition ids derived from the naming scheme (P vs P_service_product[_region], prefixes, suffixes, case/unicode variants and simple-fold twins, ids that would match if ids were interpreted as regex/glob/LIKE patterns, ids embedding _IK_/_SK_, 255-byte ids, random) for four service/product shapes are executed in both directions, cold and warm, with per-session, shared-IK and session caches, over a plain metastore, a suffix-advertising wrapper and the real DynamoDB v1/v2 metastores with region suffix on the fake: a session for B must return an error for A's record each of three times in a row (once more after one of its own records); empty ids must be refused.",
          "Known finding F3 (suffixed partition accepts ids that merely start with its unsuffixed IK id) is excused by a narrow signature; every other foreign decrypt fails the check. Region suffixes are assumed underscore-free.",
          "3/C06"),
  "C07": ("inputs", "exploration",
          "systematic mutation (exhaustive single-bit flips, truncations, splices, hostile parent meta, corrupted key rows) with a payload-or-error oracle; recover() per case; race detector / checkptr",
-         "Every single-bit flip and truncation of Data and of the encrypted data key of a genuine corpus, all ordered pairs of records exchanging Data/key/parent meta/created, parent meta pointing at every existing key id with odd Created values (also on a region-suffixing metastore), structurally empty records, random JSON, every bit flip of IK/SK row ciphertexts and malformed rows seen by cold factories, and Session.Load with hostile loaders: each case must yield exactly the payload originally encrypted under that Data, or an error; a panic or process death is a violation.",
+         "Every single-bit flip and truncation of Data and of the encrypted data key of a genuine corpus, all ordered pairs of records exchanging Data/key/parent meta/created, parent meta pointing at every existing key id with odd Created values (also on a region-suffixing metastore), structurally empty records, random JSON, every bit flip of IK/SK row ciphertexts and malformed rows seen by cold factories, storage-level corruption underneath the real plug-ins (DynamoDB items of wrong shape/type, malformed key_record JSON in SQL), and Session.Load with hostile loaders: each case must yield exactly the payload originally encrypted under that Data, or an error; a panic or process death is a violation.",
          "AES-GCM tag forgery (2^-128 per mutant) is treated as impossible. Runs under -race, which implies checkptr.",
          "3/C07"),
  "C08": ("conc", "exploration",
          "controlled scheduler over verif hook points (all interleavings, DFS with replay, synctest.Wait quiescence) plus seeded stress with yields at the same hooks under the Go race detector; use-after-destroy ledger",
-         "2-3 goroutines with short programs park at the lock-free hook points around the key-cache lookup and while holding a tracked key; the controller releases one per step and enumerates all schedules for shared IK caches of capacity 1-2 under lru/lfu/slru/tinylfu, an SK cache of capacity 1 with two SK generations, rotation while an old record is decrypted, another session closing, refresh on every access, a hot (promoted/demoted) key in use while the cache churns. Auto-generated hooks after every unlock / before every lock of the lock-using SDK files (build overlay regenerated from the working tree) are additional park/yield points. Stress: 16-32 real goroutines over 8-150 partitions on capacity-1/2 and capacity-100 (asynchronous eviction) caches and cached sessions, yields injected at the hooks, race reports parsed. Oracle: every op not racing with its own session's close succeeds with the right bytes; the ledger sees no access to a destroyed secret.",
+         "2-3 goroutines with short programs park at the lock-free hook points around the key-cache lookup and while holding a tracked key; the controller releases one per step and enumerates all schedules for shared IK caches of capacity 1-2 under lru/lfu/slru/tinylfu, an SK cache of capacity 1 with two SK generations, rotation while an old record is decrypted, another session closing, refresh on every access, a hot (promoted/demoted) key in use while the cache churns. Auto-generated hooks after every unlock (also deferred ones) / before every lock of the lock-using SDK files (build overlay regenerated from the working tree) are additional park/yield points. A last pass runs the load against a factory built from the SDK's own parts with every harness monitor removed, so that the race detector sees the SDK's synchronisation only. Stress: 16-32 real goroutines over 8-150 partitions on capacity-1/2 and capacity-100 (asynchronous eviction) caches and cached sessions, yields injected at the hooks, race reports parsed. Oracle: every op not racing with its own session's close succeeds with the right bytes; the ledger sees no access to a destroyed secret.",
          "Gates are only placed where the parked goroutine holds no lock another goroutine of the scenario needs. A clean race-detector run is not race freedom.",
          "3/C08"),
  "C11": ("secmem", "exploration",
@@ -92,7 +92,7 @@ P = {
          "3/C12"),
  "C16": ("conc", "exploration",
          "bounded-exhaustive session-cache programs in virtual time with a holder/teardown monitor over the env.close hook and debug-log correlation; stress under the race detector",
-         "Every program of L steps over {get session for partition 0/1/2, use oldest/newest handle, close oldest/newest handle, advance past SessionCacheDuration, close factory} for cache sizes 1-2 and the eviction policies; synctest.Wait quiesces the asynchronous Remove goroutines after every step; every held handle must keep working, consecutive gets share one *Session, teardown (env.close) fires exactly once per session incarnation and never while the harness counts a holder. Long scripted programs drive caches of 100/101 entries (3x capacity partitions, double requests, revisits, a handle held across the churn) for all policies; seeded real-time schedules of holders, closers and evicting newcomers run with before-lock/after-unlock yield hooks. Stress: 16 goroutines x 6 partitions, size-2 cache, 1-2 ms expiry, same oracle after quiescence.",
+         "Every program of L steps over {get session for partition 0/1/2, use oldest/newest handle, close oldest/newest handle, advance past SessionCacheDuration, close factory} for cache sizes 1-2 and the eviction policies; synctest.Wait quiesces the asynchronous Remove goroutines after every step; every held handle must keep working, consecutive gets share one *Session, teardown (env.close) fires exactly once per session incarnation and never while the harness counts a holder. Long scripted programs drive caches of 100/101 entries (3x capacity partitions, double requests, revisits, a handle held across the churn) for all policies; seeded real-time schedules of holders, closers and evicting newcomers run with before-lock/after-unlock yield hooks. Stress: 16 goroutines x 6 partitions, size-2 cache, 1-2 ms expiry, same oracle after quiescence; plus monitor-free passes for the race detector.",
          "Session incarnations are identified through the SDK's [newSession] debug line (addresses are reused).",
          "3/C16"),
  "C18": ("format", "exploration",
@@ -102,7 +102,7 @@ P = {
          "3/C18"),
  "C19": ("grpcsrv", "exploration",
          "reference protocol automaton over bounded-exhaustive request sequences on an in-process stream plus concurrent streams over real gRPC (bufconn) under the race detector",
-         "Every request sequence up to length L over {get-session valid/empty, encrypt, decrypt genuine/foreign/corrupt/empty(4 shapes), empty request} + end-of-stream runs through AppEncryption.Session; an automaton {uninitialised, initialised, rejected} gives the expected response class, responses are counted per request, panics recovered. 8 concurrent streams x seeded 40-request sequences per round over bufconn check the same automaton per stream (a handler panic there kills the process and is reported as a crash), for the server built with and without the shared session cache (three partitions, cache of 2), and 8 lock-step streams run against a server whose metastore alternates between healthy and failing with ever-changing error texts.",
+         "Every request sequence up to length L over {get-session valid/empty, encrypt, decrypt genuine/foreign/corrupt/empty(4 shapes), empty request} + end-of-stream runs through AppEncryption.Session; an automaton {uninitialised, initialised, rejected} gives the expected response class, responses are counted per request, panics recovered. 8 concurrent streams x seeded 40-request sequences per round over bufconn check the same automaton per stream (a handler panic there kills the process and is reported as a crash), for the server built with and without the shared session cache (three partitions, cache of 2), and cold-start rounds of 8 lock-step streams run against a fresh server whose metastore alternates between healthy and failing (all reads / only SK reads / only IK reads) with ever-changing error texts.",
          "main() and flag parsing are not exercised.",
          "3/C19"),
 }
